@@ -263,6 +263,38 @@ def _first_diff(a, b):
     return ["<length>", "%d vs %d" % (len(a), len(b))]
 
 
+def partial_clone_case(chk, sz, scratch, rng):
+    """A partial clone (promisor remote, blobs filtered out): the objects the scan asks about are not all present."""
+    d = os.path.join(scratch, "partial")
+    os.makedirs(d)
+    m = G.random_model(rng, size="small", hostile_names=False, noise=False)
+    src = G.write_model(m, os.path.join(d, "src.git"))
+    env = G.git_env()
+    subprocess.run([G.REAL_GIT, "--git-dir", src, "config", "uploadpack.allowfilter", "true"], env=env)
+    subprocess.run([G.REAL_GIT, "--git-dir", src, "config", "uploadpack.allowanysha1inwant", "true"], env=env)
+    p = subprocess.run([G.REAL_GIT, "clone", "-q", "--bare", "--filter=blob:none", "file://" + src, os.path.join(d, "part.git")], env=env,
+                       stdout=subprocess.PIPE, stderr=subprocess.PIPE)
+    part = os.path.join(d, "part.git")
+    if p.returncode != 0 or "promisor" not in open(os.path.join(part, "config")).read():
+        chk.cov["partial_clone_case"] = "not built: %r" % p.stderr[:100]
+        return
+    for dp, dns, fns in os.walk(part):
+        for n in dns + fns:
+            os.utime(os.path.join(dp, n), ns=(10 ** 18, 10 ** 18), follow_symlinks=False)
+    before = manifest(part)
+    r = R.sizer(sz, part, ["--json", "--no-progress"], tmpdir=d, timeout=120)
+    chk.count()
+    after = manifest(part)
+    chk.cov["partial_clone_case"] = {"exit_status": r.rc, "files_before": len(before), "files_after": len(after)}
+    if after != before:
+        changed = sorted(k for k in set(before) | set(after) if before.get(k) != after.get(k))
+        chk.violation("C17/read-only/repository-changed/partial-clone-lazy-fetch",
+                      {"paths": changed[:6], "exit_status": r.rc, "note": "git fetches the filtered-out blobs from the promisor remote "
+                       "when the scan asks cat-file about them and writes new packs"})
+    chk.nontrivial("partial-clone")
+    shutil.rmtree(d, ignore_errors=True)
+
+
 def run(chk, b, tier):
     sz = b.sizer()
     szr = b.sizer(race=True)
@@ -289,6 +321,7 @@ def run(chk, b, tier):
         if r["sample"]:
             chk.sample(r["sample"], limit=3)
             chk.nontrivial(("repo", i))
+    partial_clone_case(chk, sz, scratch, random.Random("C17p|%d" % R.SEED))
     for o in orderings:
         chk.nontrivial(("ordering", o))
     chk.cov["distinct_child_event_orderings_observed"] = len(orderings)
